@@ -5,6 +5,10 @@
 //	field - a field selection x.f used as a call argument or comparison operand is replaced by a sibling
 //	        field x.g of identical type
 //	copy  - x.DeepCopy() is replaced by x
+//	retv  - an identifier that is returned is replaced by another variable of identical type in scope
+//	asg   - an identifier on the right-hand side of an assignment / definition is replaced likewise
+//
+// With MUTATE2_KINDS=retv,asg (comma separated) only those kinds are written.
 //
 // Usage: mutate2 <repo> <outroot> <repo-relative-file>...   → outroot/<file with / as _>/<n>.go + index.txt
 // (same layout as tools/mutate; at most two alternatives per site).
@@ -218,9 +222,40 @@ func mutateFile(pkg *packages.Package, f *ast.File, out, rel string) {
 					operand(x.X, fname, x)
 					operand(x.Y, fname, x)
 				}
+			case *ast.ReturnStmt:
+				before := len(sites)
+				for _, e := range x.Results {
+					if _, isI := e.(*ast.Ident); isI {
+						operand(e, fname, x)
+					}
+				}
+				for i := before; i < len(sites); i++ {
+					sites[i].kind = "retv"
+				}
+			case *ast.AssignStmt:
+				before := len(sites)
+				for _, e := range x.Rhs {
+					if _, isI := e.(*ast.Ident); isI {
+						operand(e, fname, x)
+					}
+				}
+				for i := before; i < len(sites); i++ {
+					sites[i].kind = "asg"
+				}
 			}
 			return true
 		})
+	}
+	if ks := os.Getenv("MUTATE2_KINDS"); ks != "" {
+		var keep []site
+		for _, s := range sites {
+			for _, k := range strings.Split(ks, ",") {
+				if s.kind == k {
+					keep = append(keep, s)
+				}
+			}
+		}
+		sites = keep
 	}
 	_ = os.MkdirAll(out, 0o755)
 	_ = os.WriteFile(filepath.Join(out, "REL"), []byte(rel+"\n"), 0o644)
